@@ -163,6 +163,22 @@ RandomClauses(n, rec) ==
                   /\ IF St[kid].kind = "S" /\ Overridden(kid, "utility") /\ rec.sc.util[kid][1] = 0
                      THEN Fail(n, "mon.random.zero", rn[i]) ELSE TRUE
 
+\* C05 : handlers injected through StateT<...> run right before the state's own handler on the way in / down (guards,
+\* enter, reenter, pre and main phases) and right after it on the way out / up (exit, post phases); query is a main
+\* phase (Rules!WithInjections).
+\* D13 (open finding): S_::deepQuery calls the state's own query() before the injected ones
+InjectionOrder(n, rec) ==
+    LET ev == rec.ev IN
+    \A i \in 1 .. Len(ev) :
+        LET s == ev[i][1]  me == ev[i][2] IN
+        IF s \notin Cfg.inj \/ Base(me) # me \/ me \in ReportMethods \cup PlanMethods THEN TRUE
+        ELSE LET first == InjFirst(me) \/ me = "query"                   \* injected handler first (exit and the post phases: after)
+                 j     == IF first THEN i - 1 ELSE i + 1
+                 ok    == j \in 1 .. Len(ev) /\ ev[j][1] = s /\ ev[j][2] = "i_" \o me
+             IN IF ok THEN TRUE
+                ELSE Fail(n, IF me = "query" /\ i + 1 <= Len(ev) /\ ev[i + 1][1] = s /\ ev[i + 1][2] = "i_query"
+                             THEN "mon.inj.order.D13" ELSE "mon.inj.order", <<i, s, me>>)
+
 PlanStorage(n, post) ==
     LET cap   == Len(post.tl)
         R     == 1 .. Len(post.tb)
@@ -215,6 +231,7 @@ Monitors(n, pre, m, rec, entered, src) ==
                    { ev[i][1] : i \in { j \in 1 .. Len(ev) : ev[j][2] = ph } })
        ELSE TRUE
     /\ IF rec.a[1] \in {"react", "query"} /\ ~rec.quiet THEN ConsumeStops(n, rec) ELSE TRUE
+    /\ IF Cfg.inj # {} /\ ~rec.quiet THEN InjectionOrder(n, rec) ELSE TRUE
     \* C12 : random resolutions as the logger saw them (logger attached for the whole call)
     /\ IF ~rec.quiet /\ HasLog /\ rec.a[1] \notin {"logger", "del", "copy"}
           /\ (IF rec.a[1] = "new" THEN Len(rec.a) > 1 /\ rec.a[2] = 1 ELSE ~pre[1] /\ pre[2].lg = 1)
